@@ -33,6 +33,7 @@ def parseLevelOpt (s : String) : Option (Option Level) :=
 def parseAtom (s : String) : Option Pred :=
   match s.splitOn ":" with
   | ["lvl", l] => (parseLevel l).map fun l => .level (.exact l)
+  | ["lvc", l] => (parseLevel l).map fun l => .level (.exact l)   -- `level([eq(..)])`: same meaning, other code path
   | ["lvf", l] => (parseLevelOpt l).map fun l => .level (.atMost l)
   | ["tgt", x] => (parseStrTok x).map fun p => .target (.pfx p)
   | ["tgp", k, x] => (parseStrP k x).map fun p => .target (.custom p)
@@ -42,6 +43,8 @@ def parseAtom (s : String) : Option Pred :=
   | ["fld", n, "i128", v] => do let n ← parseStrTok n; let v ← v.toInt?; pure (.field n (.i128 v))
   | ["fld", n, "u64", v] => do let n ← parseStrTok n; let v ← v.toNat?; pure (.field n (.u64 v))
   | ["fld", n, "u128", v] => do let n ← parseStrTok n; let v ← v.toNat?; pure (.field n (.u128 v))
+  | ["fld", n, "cint", v] => do let n ← parseStrTok n; let v ← v.toInt?; pure (.field n (.i128 v))   -- `[eq(TracedValue::Int(v))]`
+  | ["fld", n, "cuint", v] => do let n ← parseStrTok n; let v ← v.toNat?; pure (.field n (.u128 v))
   | ["fld", n, "bool", v] => do let n ← parseStrTok n; pure (.field n (.bool (v = "1")))
   | ["fld", n, "f64", v] => do let n ← parseStrTok n; let b ← parseHexNat v; pure (.field n (.f64 b))
   | ["fld", n, "str", v] => do let n ← parseStrTok n; let s ← parseStrTok v; pure (.field n (.str s))
